@@ -1,6 +1,7 @@
 CONSTANTS
   MaxBlocks = 1
   MaxBlocksAll = 1
+  ExtraKinds <- NoKinds
   BigCounts <- BigQuick
 SPECIFICATION Spec
 INVARIANTS MachineOK FormOK EncodingsOK GenExact EmitCase
